@@ -1,10 +1,10 @@
 (* WinHistory.v -- property C01 over histories: the screen invariant holds initially, every
-   operation of the alphabet other than the scrolls and the terminal resize preserves it,
+   operation of the alphabet other than the scrolls preserves it,
    and a flush turns it into "every screen cell shows the composition"; by induction over
    any history with flushes at arbitrary points. *)
 From Coq Require Import ZArith List Bool Lia ZifyBool.
 From Tickit Require Import RectDefs RectProofs WinRectSet WinRectSetProofs WinDefs WinSpec WinHist
-  WinExposeProofs WinLogDisjoint WinFlushProofs WinScreenInv WinLocA WinPreserve.
+  WinExposeProofs WinLogDisjoint WinFlushProofs WinScreenInv WinLocA WinPreserve WinTermResize.
 Import ListNotations.
 Local Open Scope Z_scope.
 Local Strategy 1000 [rsfuel].
@@ -13,14 +13,14 @@ Definition MInv (m : mstate) : Prop :=
   ScreenInv (m_app m) (m_root m) (m_term m) /\ ids_unique (r_tree (m_root m)).
 
 (* the history is inside the proved alphabet, meets the side conditions of each operation
-   (op_side: fresh ids for new windows, no show/hide/geometry of the root, geometry changes
-   followed by the exposes of old and new area) and no rectangle-set loop runs out of fuel *)
+   (op_side2: fresh ids for new windows, no show/hide/geometry of the root, geometry changes
+   followed by the exposes of old and new area, terminal sizes positive) and no rectangle-set loop runs out of fuel *)
 Fixpoint run_ok (progs : Z -> list dop) (ops : list op) (m : mstate) : Prop :=
   match ops with
   | [] => True
   | o :: rest =>
     let m' := step no_defects progs o m in
-    (match o with OFlush => True | _ => op_side (m_root m) o end) /\
+    (match o with OFlush => True | _ => op_side2 (m_root m) o end) /\
     r_fault (m_root m') = false /\ run_ok progs rest m'
   end.
 
@@ -49,7 +49,7 @@ Proof.
   intros Hp. induction ops as [|o rest IH]; intros m Hm Hok; [exact Hm|].
   cbn [run fold_left]. fold (run no_defects progs rest (step no_defects progs o m)).
   destruct Hok as (Hside & Hf & Hrest). apply IH; [|exact Hrest].
-  destruct o; try (destruct Hm as [Hs Hu]; apply (step_preserves no_defects progs _ m Hs Hu Hside Hf)).
+  destruct o; try (destruct Hm as [Hs Hu]; apply (step_preserves2 no_defects progs _ m Hs Hu Hside Hf)).
   apply (flush_step progs m Hp Hm Hf).
 Qed.
 
